@@ -18,7 +18,8 @@ claim("C16",
       "Decides, for every path of the three front-ends and of invoke_trap_handler in the current source, the exit-hook protocol: "
       "on_exit is called from exactly the front-ends, once, outside loops, on every non-unwind path after user code may have run "
       "(`?` exits discharged only by callee summaries computed from MIR); only on_exit fires the EXIT handler; enter/leave and $? "
-      "save/restore bracket every handler run; exec never reaches the hook. This is the all-paths quantifier the tests cannot reach; "
+      "save/restore bracket every handler run; exec never reaches the hook; on_exit turns an `exit` of the handler into the final status "
+      "(not so today: known finding, the suite pins it). This is the all-paths quantifier the tests cannot reach; "
       "it is a necessary condition for 'exactly once', not the runtime behaviour itself.",
       "Trusted: rustc MIR and callee resolution; await modelled as the call of the awaited fn; unwind/cancellation edges are not exits. "
       "Not decided: output ordering, $? value seen by the handler, handler-calls-exit semantics, errexit/nounset termination inside the interpreter.",
@@ -53,7 +54,8 @@ claim("C03",
       ST + "def-use + dominance on MIR, who-may-call, match-arm table extraction", "DESIGN.md §3 C03")
 claim("C09",
       "Decides that every MIR write or &mut borrow through ShellVariable.value is behind the readonly test (FIELDW), that no API returns "
-      "&mut ShellValue, that unset and whole-variable replacement consult readonly, that the command scope guard / post_execute pop is "
+      "&mut ShellValue, that unset and whole-variable replacement consult readonly and unset leaves its scope walk only through the "
+      "readonly-checking remover, that the command scope guard / post_execute pop is "
       "reached on every SimpleCommand dispatch path, that enter/leave_function pair, and that child environments come from one "
       "env_clear + iter_exported site.",
       "Trusted: rustc MIR and field resolution. Not decided: dynamic-scoping visibility, attribute effects (-i -l -u), bash equality. "
@@ -63,13 +65,17 @@ claim("C10",
       "Decides that redirections are applied only to frame-owned ExecutionParameters (borrow-chain analysis of every setup_redirect "
       "call), that the shell's persistent descriptor table has a closed reviewed writer set, that the noclobber branch cannot reach "
       "truncate and uses create_new under is_file, that every path probed or opened during redirect set-up was resolved against the shell's "
-      "working directory (the noclobber test inspects the file that is opened), and that the here-document writer is dropped before Ok.",
+      "working directory (the noclobber test inspects the file that is opened), that the here-document writer is dropped before Ok, and "
+      "that the tokenizer reads the here-document being collected from the front of its FIFO (tab stripping / end tag never taken from the "
+      "last-declared document).",
       "Trusted: rustc MIR; Rust ownership (an owned ExecutionParameters dies with the command). Not decided: left-to-right descriptor "
       "semantics, file contents, here-document tokenizer behaviour.",
       ST + "borrow-root ownership analysis, who-may-call, branch-exclusive reachability", "DESIGN.md §3 C10")
 claim("C11",
       "Decides start-all-before-wait (no wait/poll/join in the spawn loop; spawn dominates wait), drain-before-join and writer-moved for "
       "command substitution, one status per stage, that no loop UTF-8-decodes the buffer a read call fills (stream data is decoded once), "
+      "that the read builtin takes one byte per call from its descriptor and that OpenFile::read does not go through a buffering reader "
+      "(it does for the process's stdin: known finding), "
       "and that every inline call of a run-to-completion interpreter from the stage dispatch functions is under "
       "ShellForCommand::ParentShell. The last rule reports the two known deadlock findings.",
       "Trusted: rustc MIR; a closure passed to tokio::spawn/spawn_blocking runs concurrently, any other call inline. Not decided: byte "
@@ -78,8 +84,9 @@ claim("C11",
 claim("C12",
       "Decides that Shell::clone copies every field from self (reviewed exceptions), that no Shell field shares interior-mutable state "
       "with its clone through Arc/Rc (reviewed exception: key bindings), that every process-global mutator API call is in a pre_exec "
-      "callback, behind !is_subshell() or reviewed, that every subshell-like context runs its body on the clone, and that a pipeline stage "
-      "is given the invoking shell only on the single-command or lastpipe-last-stage edges.",
+      "callback, behind !is_subshell() or reviewed, that every subshell-like context runs its body on the clone, that a pipeline stage "
+      "is given the invoking shell only on the single-command or lastpipe-last-stage edges, and that errors raised in a subshell stage "
+      "are turned into its status instead of propagating.",
       "Trusted: rustc MIR and fully-qualified type strings; external types are opaque except generic arguments. Known findings: umask, "
       "ulimit. Not decided: that every piece of semantic state lives in Shell.",
       ST + "aggregate-field provenance, type walk, who-may-call with dominating guards, forward taint", "DESIGN.md §3 C12")
